@@ -201,6 +201,35 @@ impl Inflights {
     }
 }
 
+#[cfg(tikv_raft_rs_verif)]
+#[allow(missing_docs)]
+impl Inflights {
+    pub fn verif_from_raw(
+        start: usize,
+        count: usize,
+        buffer: Vec<u64>,
+        cap: usize,
+        incoming_cap: Option<usize>,
+    ) -> Inflights {
+        Inflights {
+            start,
+            count,
+            buffer,
+            cap,
+            incoming_cap,
+        }
+    }
+    pub fn verif_raw(&self) -> (usize, usize, &Vec<u64>, usize, Option<usize>) {
+        (
+            self.start,
+            self.count,
+            &self.buffer,
+            self.cap,
+            self.incoming_cap,
+        )
+    }
+}
+
 #[cfg(test)]
 mod tests {
     use super::Inflights;
